@@ -984,18 +984,22 @@ func (r *RootMetadata) AddHook(stages []tuf.HookStage, hookName string, principa
 		r.Hooks = map[tuf.HookStage][]*Hook{}
 	}
 
+	// Validate every stage before changing anything, so that a refused
+	// addition leaves the metadata untouched
 	for _, stage := range stages {
 		if err := stage.IsValid(); err != nil {
 			return nil, err
 		}
+		for _, existingHook := range r.Hooks[stage] {
+			if existingHook.Name == hookName {
+				return nil, tuf.ErrDuplicatedHookName
+			}
+		}
+	}
+
+	for _, stage := range stages {
 		if r.Hooks[stage] == nil {
 			r.Hooks[stage] = []*Hook{}
-		} else {
-			for _, existingHook := range r.Hooks[stage] {
-				if existingHook.Name == hookName {
-					return nil, tuf.ErrDuplicatedHookName
-				}
-			}
 		}
 
 		r.Hooks[stage] = append(r.Hooks[stage], newHook)
